@@ -68,7 +68,8 @@ def unwire(K, octets, ctx, appnum, what):
             if t.tagClass != Tag.contextTagClass or t.tagNumber != ctx:
                 raise Violation("tag-identity", what=what, octets=octets,
                                 tclass=t.tagClass, number=t.tagNumber)
-            a = t.context_to_app(appnum)
+            # the stack names the datatype of a context tag through the class's _app_tag
+            a = t.context_to_app(getattr(K, '_app_tag', appnum))
         obj = K(a)
         # same four fields, tag number as the concrete value it was just checked to equal
         # (a symbolic index into Tag._app_tag_class yields an uncallable symbolic class)
@@ -132,14 +133,14 @@ def int_rt(d, cls, lo, hi):
         outside32 = bool(v < -2 ** 31 or v > 2 ** 31 - 1)
     else:
         outside32 = bool(v > 2 ** 32 - 1)
+    altered = []
     for mode, c, tclass in both_modes(ctx):
         octets = app if c is None else cx
         y, other = unwire(K, octets, c, appnum, cls + "/" + mode)
         got = y.value
         if got != v:
-            # kept going on purpose: the framing oracles below are still evaluated
-            d.flag(True, "integer-silently-altered" if cls == "Integer" else "silently-altered",
-                   cls=cls, mode=mode, outside32=outside32, v=v, got=got, octets=octets)
+            # recorded below with d.flag; the framing oracle is still evaluated
+            altered.append((mode, got, octets))
             n = len(app) - 1
             if 1 <= n <= 4:
                 contents = app[1:]
@@ -150,6 +151,11 @@ def int_rt(d, cls, lo, hi):
             raise Violation("app-to-object-value", cls=cls, mode=mode, v=v, got=other.value)
         contents = R.signed_contents(v) if signed else R.unsigned_contents(v)
         check_octets(octets, tclass, appnum if c is None else ctx, contents, cls + "/" + mode, v=v)
+    # "emits octets that decode to a different value".  outside32 tells the known
+    # Integer.encode 32-bit mask defect (outside32=True) from anything else
+    d.flag(len(altered) > 0, "integer-silently-altered" if cls == "Integer" else "silently-altered",
+           cls=cls, outside32=outside32, v=v, got=altered[0][1] if altered else None,
+           octets=altered[0][2] if altered else None, modes=[a[0] for a in altered])
     d.reach()
 
 
@@ -186,19 +192,24 @@ def _bits_check(bits, ctxs, K=None, what="BitString"):
 @meta(bounds="shape=all: every bit pattern of every length lo..hi, application tagging and context tagging "
              "with numbers 0, 14, 15, 254 (BitString's constructor and decoder branch on every single bit, so "
              "all patterns means enumeration: the pattern is selected nibble by nibble and the path is "
-             "concrete); shape=hot: lengths lo..hi, every pattern with exactly one bit set and every pattern "
+             "concrete; lead=[a,b] splits one length over several instances by the leading nibble); "
+             "shape=hot: lengths lo..hi, every pattern with exactly one bit set and every pattern "
              "with exactly one bit clear (each position of each length individually), context number "
              "symbolic 0..254, both tagging modes",
       outside="lengths above 64; on lengths above the shape=all bound, patterns other than one-hot / "
               "one-cold (bits are packed independently of each other)",
       stubs=[], assumes=[])
-def bits_rt(d, shape, lo, hi):
+def bits_rt(d, shape, lo, hi, lead=None):
     n = lo + d.index(hi - lo + 1, 'n')
     if shape == "all":
         bits = []
         for j in range(0, n, 4):
             w = min(4, n - j)
-            v = d.index(2 ** w, 'nib%d' % (j // 4))
+            if j == 0 and lead is not None:
+                # this instance's share of the patterns: leading nibble in lead[0]..lead[1]
+                v = lead[0] + d.index(lead[1] - lead[0] + 1, 'nib0')
+            else:
+                v = d.index(2 ** w, 'nib%d' % (j // 4))
             bits += [(v >> (w - 1 - i)) & 1 for i in range(w)]
         _bits_check(bits, CTX_EDGE)
     else:
@@ -332,6 +343,7 @@ def enum_names(d, group, part):
     K = d.pick(ENUM_GROUPS[group], 'cls')
     cname = K.__name__
     table, names, numbers, edges = ENUM_INFO[cname]
+    aliased = []
     if part == "names":
         name = names[pick2(d, len(names), 'name')]
         num = table[name]
@@ -345,7 +357,7 @@ def enum_names(d, group, part):
             raise Violation("enum-ctor-altered", cls=cname, name=name, got=obj.value)
         if byn != name:
             if isinstance(byn, str) and table.get(byn) == num:
-                d.flag(True, "enum-name-aliased", cls=cname, sent=name, got=byn, num=num)
+                aliased.append(("ctor", byn))
             else:
                 raise Violation("enum-number-to-wrong-name", cls=cname, num=num, got=byn, want=name)
         sent = name
@@ -381,13 +393,15 @@ def enum_names(d, group, part):
         got = y.value
         if isinstance(got, str) != isinstance(sent, str) or got != sent:
             if isinstance(got, str) and isinstance(sent, str) and table.get(got) == num:
-                # two names of one table share a number: the name that went in comes
-                # back as the other one
-                d.flag(True, "enum-name-aliased", cls=cname, sent=sent, got=got, num=num)
+                aliased.append((mode, got))
             else:
                 raise Violation("silently-altered", cls=cname, mode=mode, sent=sent, got=got)
         if other.value != num:
             raise Violation("app-to-object-value", cls=cname, mode=mode, num=num, got=other.value)
+    # two names of one table share a number: the name that went in comes back as the
+    # other one (recorded once per path; the remaining oracles above were still evaluated)
+    d.flag(len(aliased) > 0, "enum-name-aliased", cls=cname, sent=sent, got=aliased[0][1] if aliased else None,
+           num=num, where=[a[0] for a in aliased])
     d.reach()
 
 
@@ -608,39 +622,35 @@ def octets_rt(d, n, long):
 
 
 SURROGATES = [0xD800, 0xDBFF, 0xDC00, 0xDFFF]
+LEAD = {1: (0, 0x7F), 2: (0x80, 0x7FF), 3: (0x800, 0xFFFF), 4: (0x10000, 0x10FFFF)}
 
 
 @meta(bounds="CharacterString: every text of exactly n characters, each code point symbolic over all of "
-             "0..0x10FFFF except the surrogate block (1-, 2-, 3- and 4-octet UTF-8 forms); surrogate=True: "
-             "one lone surrogate (concrete: D800, DBFF, DC00, DFFF) between two symbolic ASCII characters "
+             "0..0x10FFFF except the surrogate block (1-, 2-, 3- and 4-octet UTF-8 forms; lead=k splits one "
+             "length over four instances by the UTF-8 length of the first character); surrogate=True: "
+             "one lone surrogate (concrete: D800, DBFF, DC00, DFFF), alone or next to ASCII characters, "
              "must be refused; context number symbolic 0..254",
       outside="texts longer than n characters; surrogate code points other than the four block boundaries "
               "(CrossHair's UTF-8 model encodes lone surrogates instead of refusing them, so they are "
               "checked with concrete code points through the real codec); character sets other than UTF-8",
       stubs=[], assumes=["code points drawn symbolically are not surrogates (checked concretely instead)"])
-def chars_rt(d, n, surrogate):
+def chars_rt(d, n, surrogate, lead=None):
     ctx = d.int(0, 254, 'ctx')
     if surrogate:
-        a = d.int(0, 127, 'a')
+        # all concrete: the real codec runs (CrossHair's UTF-8 model lets surrogates through)
         s = d.pick(SURROGATES, 'surrogate')
-        b = d.int(0, 127, 'b')
-        text = chr(a) + chr(s) + chr(b)
+        text = d.pick(["", "a"], 'before') + chr(s) + d.pick(["", "z"], 'after')
         try:
-            obj = P.CharacterString(text)
-            app = wire(obj)
+            app = wire(P.CharacterString(text))
         except Exception:
             d.reach()
             return
-        # not refused: then it must at least survive
-        try:
-            y, _ = unwire(P.CharacterString, app, None, R.CHARACTER_STRING, "CharacterString/surrogate")
-        except Violation:
-            raise Violation("accepted-unrepresentable", cls="CharacterString", cps=[a, s, b], octets=app)
-        if y.value != text:
-            raise Violation("silently-altered", cls="CharacterString", cps=[a, s, b], octets=app)
-        d.reach()
-        return
+        # a lone surrogate has no UTF-8 form (RFC 3629): whatever was emitted is not the value
+        raise Violation("accepted-unrepresentable", cls="CharacterString", surrogate=s, octets=app)
     cps = [d.int(0, 0x10FFFF, 'cp%d' % i) for i in range(n)]
+    if lead is not None:
+        # this instance's share: first character with a UTF-8 form of `lead` octets
+        d.assume(LEAD[lead][0] <= cps[0] <= LEAD[lead][1])
     for cp in cps:
         d.assume(not (0xD800 <= cp <= 0xDFFF))
     text = ''.join([chr(cp) for cp in cps])
@@ -715,15 +725,15 @@ def _fields(t):
     return (t.tagClass, t.tagNumber, t.tagLVT, bytes(t.tagData))
 
 
-@meta(bounds="every application tag number 0..15 (13 datatypes + 3 reserved numbers; lo..hi per instance); contents "
-             "0..n symbolic octets (Boolean: L/V/T value symbolic 0..7, no contents); context number "
+@meta(bounds="every application tag number 0..15 (13 datatypes + 3 reserved numbers; lo..hi per instance); "
+             "contents 0..n symbolic octets (Boolean: L/V/T value symbolic 0..1, no contents); context number "
              "symbolic 0..254",
       outside="contents longer than n octets (conversions copy the contents)", stubs=[], assumes=[])
 def tag_conv(d, lo, hi, n):
     number = lo + d.index(hi - lo + 1, 'number')
     ctx = d.int(0, 254, 'ctx')
     if number == R.BOOLEAN:
-        lvt = d.int(0, 7, 'lvt')
+        lvt = d.int(0, 1, 'lvt')
         data = b''
         t = Tag(Tag.applicationTagClass, number, lvt, data)
         cdata = bytes([lvt])
@@ -848,19 +858,20 @@ def _float_value(hexoctets, double):
 
 @meta(bounds="Real / Double on CONCRETE representative values (zeros of both signs, +-1, 1.5, 73.5, "
              "largest finite, smallest normal, smallest/largest denormal, 1+ulp, infinities; for Real also "
-             "binary64 values that must round to nearest-even and values too large for binary32); "
+             "binary64 values that are not binary32 values - rounded to nearest-even or refused, nothing else - "
+             "and values too large for binary32 - refused or exact); "
              "context number symbolic 0..254; wrong-length decode: every contents length 0..9 except the "
              "right one, content symbolic",
       outside="all other floating point values (IEEE-754 layout is discharged as smtk lemmas); NaN",
-      stubs=[], assumes=["a Python float that is not a binary32 value is rounded by Real (statement: "
-                         "'4-octet IEEE float')"])
+      stubs=[], assumes=["a Python float that is not a binary32 value may be rounded to the nearest binary32 "
+                         "value by Real (statement: '4-octet IEEE float') or refused"])
 def float_plumb(d, cls):
     double = cls == "Double"
     K, appnum, width = (P.Double, R.DOUBLE, 8) if double else (P.Real, R.REAL, 4)
-    cases = list(DOUBLE_CASES) if double else list(REAL_CASES) + list(REAL_ROUNDED)
     ctx = d.int(0, 254, 'ctx')
-    part = d.pick(["value", "too-big", "wrong-length"] if not double else ["value", "wrong-length"], 'part')
-    if part == "value":
+    part = d.pick(["value", "wrong-length"] if double else ["value", "rounded", "too-big", "wrong-length"], 'part')
+    if part in ("value", "rounded"):
+        cases = REAL_ROUNDED if part == "rounded" else (DOUBLE_CASES if double else REAL_CASES)
         x, hexo = cases[d.index(len(cases), 'case')]
         contents = bytes.fromhex(hexo)
         want = _float_value(hexo, double)
@@ -869,6 +880,10 @@ def float_plumb(d, cls):
             app = wire(obj)
             cx = wire(obj, ctx)
         except Exception as e:
+            if part == "rounded":
+                # not a binary32 value: refusing is as legitimate as rounding
+                d.reach()
+                return
             raise Violation("refused-representable", cls=cls, x=x, exc=type(e).__name__)
         if not _same_float(obj.value, x):
             raise Violation("ctor-altered", cls=cls, x=x, got=obj.value)
@@ -893,22 +908,17 @@ def float_plumb(d, cls):
     else:
         data = d.bytes(0, 9, 'data')
         d.assume(len(data) != width)
-        for what, tag in (("application", P.ApplicationTag(appnum, data)),):
+        for how, tag in (("application", P.ApplicationTag(appnum, data)),
+                         ("context", P.ContextTag(ctx, data).context_to_app(appnum))):
+            outcome = "accepted"
             try:
                 K(tag)
             except InvalidTag:
                 continue
             except Exception as e:
-                raise Violation("wrong-length-error", cls=cls, n=len(data), exc=type(e).__name__)
-            raise Violation("wrong-length-accepted", cls=cls, n=len(data))
-        try:
-            K(P.ContextTag(ctx, data).context_to_app(appnum))
-        except InvalidTag:
-            pass
-        except Exception as e:
-            raise Violation("wrong-length-error", cls=cls, n=len(data), exc=type(e).__name__)
-        else:
-            raise Violation("wrong-length-accepted", cls=cls, n=len(data))
+                outcome = type(e).__name__
+            # the repository's tests pin InvalidTag (the layers above turn it into a Reject)
+            raise Violation("wrong-length-not-invalid-tag", cls=cls, n=len(data), how=how, outcome=outcome)
     d.reach()
 
 
@@ -931,8 +941,12 @@ def instances(tier):
         out.append(Inst(bits_rt, dict(shape="hot", lo=1, hi=17), budget=b))
     else:
         out.append(Inst(bits_rt, dict(shape="all", lo=0, hi=10), budget=b))
-        for n in (11, 12, 13, 14):
-            out.append(Inst(bits_rt, dict(shape="all", lo=n, hi=n), budget=600))
+        for n in (11, 12):
+            out.append(Inst(bits_rt, dict(shape="all", lo=n, hi=n), budget=400))
+        for n, parts in ((13, 2), (14, 4)):
+            for k in range(parts):
+                lead = [k * 16 // parts, (k + 1) * 16 // parts - 1]
+                out.append(Inst(bits_rt, dict(shape="all", lo=n, hi=n, lead=lead), budget=400))
         for lo, hi in ((1, 24), (25, 40), (41, 52), (53, 64)):
             out.append(Inst(bits_rt, dict(shape="hot", lo=lo, hi=hi), budget=b))
     out.append(Inst(bits_names, {}, budget=b))
@@ -961,8 +975,11 @@ def instances(tier):
     # strings
     out.append(Inst(octets_rt, dict(n=6 if q else 10, long=False), budget=b))
     out.append(Inst(octets_rt, dict(n=0 if q else 1, long=True), budget=90 if q else 300))
-    for n in ((0, 1, 2) if q else (0, 1, 2, 3, 4)):
-        out.append(Inst(chars_rt, dict(n=n, surrogate=False), budget=b if n < 4 else 600))
+    for n in ((0, 1, 2) if q else (0, 1, 2, 3)):
+        out.append(Inst(chars_rt, dict(n=n, surrogate=False), budget=b))
+    if not q:
+        for lead in (1, 2, 3, 4):
+            out.append(Inst(chars_rt, dict(n=4, surrogate=False, lead=lead), budget=400))
     out.append(Inst(chars_rt, dict(n=0, surrogate=True), budget=b))
     # null, boolean, tag conversions, floats
     out.append(Inst(null_bool, {}, budget=b))
@@ -971,3 +988,76 @@ def instances(tier):
     out.append(Inst(float_plumb, dict(cls="Real"), budget=b))
     out.append(Inst(float_plumb, dict(cls="Double"), budget=b))
     return out
+
+
+# ------------------------------------------------------------------ plain-Python self-test
+def selftest():
+    """DESIGN 4.2: push the literals of the repository's own tests (tests/test_primitive_data)
+    through the reference and through the harnesses under plain execution; both must agree
+    with what the suite blesses.  Returns a list of disagreements (empty = fine).
+
+        python3-vt -c "from vf.api import repo_setup; repo_setup(); from vf.harness import C01; print(C01.selftest())"
+    """
+    from ..api import run_concrete
+    bad = []
+
+    def same(what, got, hexstr):
+        if bytes(got) != bytes.fromhex(hexstr):
+            bad.append((what, bytes(got).hex(), hexstr))
+
+    def run(fn, params, draws, what):
+        r = run_concrete(fn, params, draws)
+        if r["outcome"] != "ok":
+            bad.append((what, r))
+
+    W = 2 ** 71
+    for v, h in ((0, '00'), (1, '01'), (127, '7f'), (-128, '80'), (-1, 'ff'), (32767, '7fff'),
+                 (-32768, '8000'), (8388607, '7fffff'), (-8388608, '800000'),
+                 (2147483647, '7fffffff'), (-2147483648, '80000000')):
+        same("signed %d" % v, R.signed_contents(v), h)
+        run(int_rt, dict(cls="Integer", lo=-W, hi=W), [('v', v), ('ctx', 3)], "Integer %d" % v)
+    for v, h in ((0, '00'), (1, '01'), (127, '7f'), (128, '80'), (255, 'ff'), (32767, '7fff'),
+                 (32768, '8000'), (8388607, '7fffff'), (8388608, '800000'),
+                 (2147483647, '7fffffff'), (2147483648, '80000000')):
+        same("unsigned %d" % v, R.unsigned_contents(v), h)
+        for cls in ("Unsigned", "Enumerated"):
+            run(int_rt, dict(cls=cls, lo=-W, hi=W), [('v', v), ('ctx', 20)], "%s %d" % (cls, v))
+    for bits, h in (([], '00'), ([0], '0700'), ([1], '0780'), ([0] * 2, '0600'), ([1] * 2, '06c0'),
+                    ([0] * 10, '060000'), ([1] * 10, '06ffc0')):
+        same("bits %r" % (bits,), R.bitstring_contents(bits), h)
+        draws = [('n', len(bits))]
+        for j in range(0, len(bits), 4):
+            w = min(4, len(bits) - j)
+            draws.append(('nib%d' % (j // 4), int(''.join(str(b) for b in bits[j:j + w]), 2)))
+        run(bits_rt, dict(shape="all", lo=0, hi=10), draws, "bits %r" % (bits,))
+    same("chars abc", R.charstring_contents([97, 98, 99]), '00616263')
+    same("chars empty", R.charstring_contents([]), '00')
+    run(chars_rt, dict(n=3, surrogate=False), [('ctx', 0), ('cp0', 97), ('cp1', 98), ('cp2', 99)], "chars abc")
+    same("oid analogInput,0", R.object_identifier_contents(0, 0), '00000000')
+    run(oid_tuple, dict(form="name", rt=True),
+        [('ctx', 1), ('name_hi', OT_NAMES.index('analogInput') // 16),
+         ('name_lo', OT_NAMES.index('analogInput') % 16), ('inst', 0)], "oid analogInput,0")
+    for f in ((0, 0, 0, 0), (1, 0, 0, 0), (0, 2, 0, 0), (0, 0, 3, 0), (0, 0, 0, 4)):
+        run(date_time_rt, dict(cls="Time", form="tuple"),
+            [('ctx', 2)] + [('f%d' % i, x) for i, x in enumerate(f)], "time %r" % (f,))
+    run(date_time_rt, dict(cls="Date", form="tuple"),
+        [('ctx', 2), ('f0', 1), ('f1', 2), ('f2', 3), ('f3', 4)], "date (1,2,3,4)")
+    for data in (b'', b'\x01', b'\x01\x02', b'\x01\x02\x03', b'\x01\x02\x03\x04'):
+        run(octets_rt, dict(n=6, long=False), [('ctx', 9), ('data', data)], "octets %r" % (data,))
+    for b in (False, True):
+        run(null_bool, {}, [('ctx', 4), ('b', b)], "boolean %r" % (b,))
+    # whole application-tagged encodings of tests/test_primitive_data/test_tag.py
+    for obj, h in ((P.Null(), '00'), (P.Boolean(True), '11'), (P.Boolean(False), '10'),
+                   (P.Unsigned(127), '217F'), (P.Unsigned(128), '2180'), (P.Integer(128), '320080'),
+                   (P.Integer(-128), '3180'), (P.Real(73.5), '4442930000'),
+                   (P.Double(73.5), '55084052600000000000'), (P.OctetString(b''), '60')):
+        same("wire %s" % (obj,), wire(obj), h)
+    same("tagged unsigned 127", R.tagged(APP, R.UNSIGNED, R.unsigned_contents(127)), '217F')
+    same("tagged double", R.tagged(APP, R.DOUBLE, bytes.fromhex('4052600000000000')), '55084052600000000000')
+    import struct
+    for cases, cls, part in ((REAL_CASES, "Real", 0), (REAL_ROUNDED, "Real", 1), (DOUBLE_CASES, "Double", 0)):
+        for i, (x, h) in enumerate(cases):
+            if struct.pack('>d' if cls == "Double" else '>f', x).hex() != h:
+                bad.append(("float table", x, h))
+            run(float_plumb, dict(cls=cls), [('ctx', 7), ('part', part), ('case', i)], "float %r" % (x,))
+    return bad
